@@ -81,6 +81,15 @@ def run (args : List String) : Option String :=
     let mode ← parseMode? mode; let shape ← parseShape? shape; let tight ← parseBool? tight
     let anchor ← parseAnchor? anchor; let tol ← parseRat? tol; let rnd ← parseRnd? rnd
     pure (fmtRes fmtOut (computeOutputAny gb ⟨sc, su, sr, bb, cp, fs⟩ mode shape tight anchor tol rnd))
+  | ["outshape", sc, su, sr, bb, cp, fs, mode, shape, tight, anchor, tol, rnd] => do
+    -- compute_output_geobox: `source` or the shape of the computed grid (shape requests: `span / n` is not exact in doubles)
+    let sc ← parseBool? sc; let su ← parseBool? su
+    let sr ← parsePair? sr; let bb ← parseBBox? bb; let cp ← parsePair? cp; let fs ← parsePair? fs
+    let mode ← parseMode? mode; let shape ← parseShape? shape; let tight ← parseBool? tight
+    let anchor ← parseAnchor? anchor; let tol ← parseRat? tol; let rnd ← parseRnd? rnd
+    pure (fmtRes (fun (o : Out) => match o with
+      | .source => "source"
+      | .grid g => s!"{g.ny} {g.nx}") (computeOutput ⟨sc, su, sr, bb, cp, fs⟩ mode shape tight anchor tol rnd))
   | ["snap", x0, x1, res, off, tol] => do
     let x0 ← parseRat? x0; let x1 ← parseRat? x1; let res ← parseRat? res
     let off ← parseOpt? parseRat? off; let tol ← parseRat? tol
